@@ -21,6 +21,7 @@ def build(path):
             if in_impl and owner not in selfs:
                 if s.startswith('self_ty: Ty'): in_self=True
                 elif in_self and s.startswith('ident:'):
-                    selfs[owner]=re.match(r'ident: (\w+)#',s).group(1)
+                    nm=re.match(r'ident: (\w+)#',s).group(1)
+                    if nm not in ('super','crate','self'): selfs[owner]=nm
             prev=line
     return {k:[v,selfs.get(k)] for k,v in table.items()}
